@@ -118,9 +118,14 @@ def run(prop, tier, seed, replay):
                 if (fi // 3) % 2 == 0:      # stratum, every format: several chunks and a partial last one
                     c = rng.choice([3, 4, 7])
                     n = rng.choice([2, 3]) * c + rng.choice([1, c - 1])
+                fmt = ["fits", "hdf5", "parquet"][fi % 3]
+                uniform_groups = None
+                if fmt == "parquet" and (fi // 3) % 2 == 1:
+                    # stratum: many equal row groups, chunk boundaries INSIDE row groups for many chunks in a row
+                    c, uniform_groups = rng.choice([3, 4, 7]), rng.choice([5, 10])
+                    n = 6 * uniform_groups + rng.choice([0, 1])
                 nprng = np.random.default_rng(rng.randrange(2 ** 32))
                 ra, dec = nprng.uniform(0, 1, n), nprng.uniform(0, 1, n)
-                fmt = ["fits", "hdf5", "parquet"][fi % 3]
                 path = root / f"f{fi}.{fmt}"
                 if fmt == "fits":
                     fits.BinTableHDU.from_columns([fits.Column(name="ra", format="D", array=ra),
@@ -130,7 +135,9 @@ def run(prop, tier, seed, replay):
                         f["ra"], f["dec"] = ra, dec
                 else:
                     tab = pa.table({"ra": ra, "dec": dec})
-                    if rng.random() < 0.5:
+                    if uniform_groups is not None:
+                        pq.write_table(tab, path, row_group_size=uniform_groups)
+                    elif rng.random() < 0.5:
                         pq.write_table(tab, path, row_group_size=rng.choice([1, 2, 5, 100]))
                     else:           # row groups of differing sizes, a large one first
                         with pq.ParquetWriter(path, tab.schema) as wr:
